@@ -129,10 +129,11 @@ type modAnalysis struct {
 	w    *world
 	c    *smtctx // only used for key naming (sorts)
 	sets map[*ssa.Function]*modset
+	keyTypes map[string]types.Type
 }
 
 func (w *world) computeModsets() *modAnalysis {
-	ma := &modAnalysis{w: w, c: newSMT(w), sets: map[*ssa.Function]*modset{}}
+	ma := &modAnalysis{w: w, c: newSMT(w), sets: map[*ssa.Function]*modset{}, keyTypes: map[string]types.Type{}}
 	var fns []*ssa.Function
 	for _, n := range sortedKeys(w.funcs) {
 		fns = append(fns, w.funcs[n])
@@ -182,7 +183,7 @@ func (ma *modAnalysis) freshRoot(v ssa.Value, in map[*ssa.BasicBlock]bool) bool 
 func (ma *modAnalysis) recordStore(ms *modset, addr ssa.Value, t types.Type, in map[*ssa.BasicBlock]bool) {
 	fresh := ma.freshRoot(addr, in)
 	for _, lf := range ma.c.leaves(t) {
-		key := ma.c.cellKey(lf.typ)
+		key := ma.cellKey(lf.typ)
 		if fresh {
 			ms.fresh[key] = true
 			continue
@@ -244,25 +245,31 @@ func (ma *modAnalysis) region(fn *ssa.Function, in map[*ssa.BasicBlock]bool) *mo
 		for _, ins := range b.Instrs {
 			switch x := ins.(type) {
 			case *ssa.Store:
+				if a := rootAlloc(x.Addr); a != nil && isRegAlloc(a) {
+					continue
+				}
 				ma.recordStore(ms, x.Addr, x.Val.Type(), in)
 			case *ssa.Alloc:
+				if isRegAlloc(x) {
+					continue
+				}
 				for _, lf := range c.leaves(x.Type().Underlying().(*types.Pointer).Elem()) {
-					ms.fresh[c.cellKey(lf.typ)] = true
+					ms.fresh[ma.cellKey(lf.typ)] = true
 				}
 				if at, ok := x.Type().Underlying().(*types.Pointer).Elem().Underlying().(*types.Array); ok {
 					for _, lf := range c.leaves(at.Elem()) {
-						ms.fresh[c.cellKey(lf.typ)] = true
+						ms.fresh[ma.cellKey(lf.typ)] = true
 					}
 				}
 			case *ssa.MakeSlice:
 				for _, lf := range c.leaves(x.Type().Underlying().(*types.Slice).Elem()) {
-					ms.fresh[c.cellKey(lf.typ)] = true
+					ms.fresh[ma.cellKey(lf.typ)] = true
 				}
 			case *ssa.MakeMap:
-				md, mv, mc := c.mapKeys(x.Type())
+				md, mv, mc := ma.mapKeys(x.Type())
 				ms.fresh[md], ms.fresh[mv], ms.fresh[mc] = true, true, true
 			case *ssa.MapUpdate:
-				md, mv, mc := c.mapKeys(x.Map.Type())
+				md, mv, mc := ma.mapKeys(x.Map.Type())
 				if ma.freshRoot(x.Map, in) {
 					ms.fresh[md], ms.fresh[mv], ms.fresh[mc] = true, true, true
 				} else {
@@ -274,10 +281,10 @@ func (ma *modAnalysis) region(fn *ssa.Function, in map[*ssa.BasicBlock]bool) *mo
 					switch b.Name() {
 					case "append":
 						for _, lf := range c.leaves(call.Args[0].Type().Underlying().(*types.Slice).Elem()) {
-							ms.fresh[c.cellKey(lf.typ)] = true
+							ms.fresh[ma.cellKey(lf.typ)] = true
 						}
 					case "delete":
-						md, mv, mc := c.mapKeys(call.Args[0].Type())
+						md, mv, mc := ma.mapKeys(call.Args[0].Type())
 						if ma.freshRoot(call.Args[0], in) {
 							ms.fresh[md], ms.fresh[mv], ms.fresh[mc] = true, true, true
 						} else {
@@ -285,7 +292,7 @@ func (ma *modAnalysis) region(fn *ssa.Function, in map[*ssa.BasicBlock]bool) *mo
 						}
 					case "copy":
 						for _, lf := range c.leaves(call.Args[0].Type().Underlying().(*types.Slice).Elem()) {
-							ms.shape(c.cellKey(lf.typ)).elem = true
+							ms.shape(ma.cellKey(lf.typ)).elem = true
 						}
 					}
 					continue
@@ -307,4 +314,23 @@ func (ma *modAnalysis) region(fn *ssa.Function, in map[*ssa.BasicBlock]bool) *mo
 		}
 	}
 	return ms
+}
+
+func isRegAlloc(a *ssa.Alloc) bool {
+	if _, isArr := a.Type().Underlying().(*types.Pointer).Elem().Underlying().(*types.Array); isArr {
+		return false
+	}
+	return addrOnlyLocal(a, 0)
+}
+
+func (ma *modAnalysis) cellKey(t types.Type) string {
+	k := ma.c.cellKey(t)
+	ma.keyTypes[k] = t
+	return k
+}
+
+func (ma *modAnalysis) mapKeys(t types.Type) (string, string, string) {
+	md, mv, mc := ma.c.mapKeys(t)
+	ma.keyTypes[md], ma.keyTypes[mv], ma.keyTypes[mc] = t, t, t
+	return md, mv, mc
 }
